@@ -77,6 +77,7 @@ fn split_case(text: &[u8], pattern: &[u8]) {
     assert!(pieces >= 1 && n >= pattern.len(), "C15.split: split yields at least one piece");
     assert!(same_bytes(&joined[..n - pattern.len()], text), "C15.split: the pieces re-joined with the pattern reproduce the string");
     std::mem::forget(it);
+    kani::cover!(true, "the end of the harness is reached past every obligation");
 }
 
 // @props C15 C06 C13
@@ -141,6 +142,7 @@ fn lines_case(text: &[u8]) {
     }
     let _ = it.size_hint();
     std::mem::forget(it);
+    kani::cover!(true, "the end of the harness is reached past every obligation");
 }
 
 // @props C15 C06 C13
@@ -219,4 +221,5 @@ fn c15_string_bytes_and_chars() {
         k += 1;
     }
     std::mem::forget(chars);
+    kani::cover!(true, "the end of the harness is reached past every obligation");
 }
